@@ -173,10 +173,29 @@ def _install_once():
         (_rtime.sleep, seams.FakeTime.sleep),
         (os.getpid, seams._OsForTmpfiles.getpid),
     ]
+    import concurrent as _concurrent
+    import concurrent.futures as _cfutures
+    by_identity += [
+        (threading.Thread, seams.SimThread),
+        (threading.Lock, seams._ThreadingForTmpfiles.Lock),
+        (threading.RLock, seams._ThreadingForTmpfiles.RLock),
+        (threading.Event, seams.SimThreadEvent),
+        (threading.get_ident, seams._ThreadingForTmpfiles.get_ident),
+        (_cfutures.ThreadPoolExecutor, seams.SimThreadPoolExecutor),
+        (_cfutures.as_completed, seams.sim_as_completed),
+        (_cfutures.wait, seams.sim_wait),
+    ]
+    fthreading = seams._ThreadingForTmpfiles()
     for mod in _ddsmt_modules():
         for name, val in list(vars(mod).items()):
             if val is multiprocessing:
                 setattr(mod, name, fm)
+            elif val is threading:
+                setattr(mod, name, fthreading)
+            elif val is _concurrent:
+                setattr(mod, name, seams.FakeConcurrent)
+            elif val is _cfutures:
+                setattr(mod, name, seams.FakeConcurrent.futures)
             elif val is _rtime:
                 setattr(mod, name, seams.FakeTime)
             elif val is _subprocess:
@@ -191,7 +210,8 @@ def _install_once():
     if not _RESOURCE_SLOTS:
         _RESOURCE_SLOTS.append((m.checker, 'resource'))
     m.tmpfiles.os = seams._OsForTmpfiles()
-    m.tmpfiles.threading = seams._ThreadingForTmpfiles()
+    if getattr(m.tmpfiles, 'threading', None) is threading:
+        m.tmpfiles.threading = fthreading
     m.nodeio.open = seams.sim_open
     if hasattr(m.nodeio, 'os'):
         m.nodeio.os = seams._OsForNodeio()
